@@ -622,6 +622,7 @@ type FuncContract struct {
 	Pure        bool // no heap effect at all
 	NoSafety    bool // the zero-annotation safety sweep is not claimed for this function
 	Opaque      bool // trusted contract whose body is never examined (not even for its write/allocation summary)
+	Modular     bool // like Opaque at call sites, but verified against its body where it is listed
 	NoSplit     bool // join blocks are merged instead of executed once per incoming edge (fewer, larger obligations)
 	HavocAll    bool // "modifies everything": the callee may change any real heap location (ghost state is kept)
 	RecvName    string
@@ -708,7 +709,7 @@ var declKeywords = map[string]bool{
 	"import": true, "ghost": true, "pure": true, "axiom": true, "func": true, "extern": true,
 	"requires": true, "ensures": true, "modifies": true, "allocates": true, "loop": true, "invariant": true,
 	"inline": true, "trusted": true, "monitor": true, "guards": true, "atomics": true, "heappure": true,
-	"iterates": true, "nomod": true, "ghostset": true, "iface": true, "iter": true, "callsvia": true, "fparam": true, "endfparam": true, "nosafety": true, "opaque": true, "nosplit": true,
+	"iterates": true, "nomod": true, "ghostset": true, "iface": true, "iter": true, "callsvia": true, "fparam": true, "endfparam": true, "nosafety": true, "opaque": true, "modular": true, "nosplit": true,
 }
 
 // logicalLines extracts //@ lines and joins continuation lines (those not starting with a keyword).
@@ -1104,6 +1105,14 @@ func ParseContractFile(path, pkgPath, text string) (*ContractFile, error) {
 		case "opaque":
 			if cur != nil {
 				cur.Trusted, cur.Opaque = true, true
+				cur.HasModifies = true
+			}
+		case "modular":
+			// at call sites only the contract is used (as for opaque: the body is not examined for a write or
+			// allocation summary), but the function is verified against it like any other function under contract.
+			// A use in a check that does not verify the function is listed as a trusted contract in that check.
+			if cur != nil {
+				cur.Opaque, cur.Modular = true, true
 				cur.HasModifies = true
 			}
 		case "iterates":
